@@ -21,8 +21,9 @@ fi
 rc_all=0
 for p in "$@"; do
   echo "=== $p on $(basename "$(dirname "$patch")")/$(basename "$patch")"
-  (cd "$root/verif" && VERIF_REPO="$root/repo" timeout 3000 ./check "$p" --tier "${TIER:-quick}" 2>&1 | grep -v "^WARNING conda" | tail -${TAIL:-8})
-  rc=${PIPESTATUS[0]}
+  (cd "$root/verif" && VERIF_REPO="$root/repo" timeout 3000 ./check "$p" --tier "${TIER:-quick}" > "$root/out.txt" 2>&1)
+  rc=$?
+  grep -v "^WARNING conda" "$root/out.txt" | tail -${TAIL:-8}
   echo "=== $p exit=$rc"
   if [ -n "${SAVE:-}" ]; then mkdir -p "$SAVE"; cp "$root"/verif/replays/* "$SAVE"/ 2>/dev/null; fi
 done
